@@ -348,7 +348,8 @@ def space(tier, seed):
         keep = {'1.0', ['1.1', '1.2', '1.3'][seed % 3]}
         mdocs = [dc for dc in docs_ if dc['v'] in keep and dc['kind'] != 'multi']
     else:
-        mdocs = docs_
+        # every single-feature document over the minimal one as well (each element kind in isolation)
+        mdocs = docs_ + [c for v in ('1.0', '1.3') for c in docgen.feature_space(v, 1) if c['base'] == 'm' and c['delta']]
     for dc in mdocs:
         _, xml = _doc_xml(dc)
         n = len(list(mutants(xml, dc['v'])))
